@@ -125,7 +125,9 @@ def tractSnap (t : Obj.TractObj) : PyVal :=
 def descSnap (d : Obj.DescObj) : PyVal :=
   .dict ([(ps "current_layout", .ofOptStr d.currentLayout), (ps "pp_desc", .str d.ppDesc),
     (ps "desc_is_flawed", .bool (!d.fl.e.isEmpty)),
-    (ps "tracts", .list (d.tracts.map tractSnap))] ++ flagsPy d.fl)
+    (ps "tracts", .list (d.tracts.map tractSnap)),
+    (ps "pretty_desc", .ofOptStr (Export.prettyDesc d.tracts)),
+    (ps "pretty_desc_tab", .ofOptStr (Export.prettyDesc d.tracts (S "Section ") (some (S "\t"))))] ++ flagsPy d.fl)
 
 def handleObj (fs : List String) : Option String :=
   match fs with
